@@ -39,6 +39,12 @@ BR_SLOTS = [['', '13', '1', '2', '0', '999', '1000', '014'],
             ['', '+', '--', '+1', '-4', '+5', '+++', '+-', '+0', '2+', '++'],
             ['', ':1', ':0', ':1234', ':12345', ':', ':01']]
 BR_TOKENS = ['13', '0', 'C', 'N', 'Cl', 'c', 'se', 'H', 'Fe', 'Xx', '@', '@@', 'H2', 'H5', '+', '-', '++', '+2', '+5', ':1', ':1234', ':', ';', '$', '*', ' ', '[', ']', '(', '%']
+# fixed, seed- and tier-independent inputs: one or two shortest witnesses of every defect family known on the pinned tree, so that the
+# quick and the thorough tier (and every seed) report the same family key set; they are ordinary members of the domain, judged as any other
+ANCHORS = ['(', ';', ';@', 'C!~C', '(!~', 'C=;@C', '#;@;@', 'C |^1:5|', '>> |^1:0|', 'C\\C=C1/2CC2C1', 'C/C=C=1\\C\\C1', '(C)/C=C=1\\C\\C1', '(C)\\C=C1/2CC2C1', 'C(C)(=C/N)\\3CC3', '(C)', '(C)C', '(C)>>', 'C!', '>>C!',
+           '[HH]', 'c1cc(#1)', 'C.(C)', 'CC(C)1CC1', 'C1CC%1', 'C |f:0.1|', 'C>>N |f:0.5|', '>>C |f:0.1|', '.>>C', 'C..N>>O', 'C>>C1C1', 'C>>C11', 'C>>[99C]',
+           '[O-] |^1:0|', '>>[O-] |^1:0|', '>C.[O-]> |f:0.1,^1:1|', 'C.N.[O-]>> |f:0.2,^1:1|', 'c1/2cc2c1', 'c/1ccccc1', '>>c1/2cc2c1', 'C.N>>c1/2cc2c1 |f:0.1|',
+           'C.N.O>>S |^1:1,f:0.2|', 'C.[C@H](F)(Cl)Br', 'C(.[C@H](F)(Cl)Br)C', 'F1.[C@H]1(N)CC', 'C.N>> |f:0.1|', 'C.N>O> |f:0.1|', 'C1=C/CCCCCC/1']
 MUT_QUICK = list('CNOcn()[]=#1290%+-@H/\\.:;!~>lr ')
 MUT_FULL = MUT_QUICK + list('SPFBIospb345678,$*|^&ZaeXx{}"\'')
 
@@ -690,6 +696,8 @@ def bounded(run):
     _merge(run, pmap(_w_strings, [(c, True, False) for c in _chunks(tpl, 50)]), fam, odd, stats)
     run.bound(f'templates: {len(tpl)} stereo-centre spellings (first atom / preceded / later component / branch / ring closure / reaction role), '
               f'directional-bond spellings, reaction and CXSMILES cases')
+    _merge(run, pmap(_w_strings, [(c, True, False) for c in _chunks(ANCHORS, 8)]), fam, odd, stats)
+    run.bound(f'anchors: {len(ANCHORS)} fixed inputs (shortest witnesses of every family reproduced on the pinned tree, plus the inputs of repaired defects)')
     tm['generated'] = round(time.time() - t0, 1)
 
     # 3. corpus ------------------------------------------------------------------------------------------------------------
